@@ -177,7 +177,7 @@ func TestC17(t *testing.T) { RunProperty(t, cfgC17) }
 var cfgC14 = reg(PropCfg{
 	ID: "C14",
 	Profile: &Profile{Weights: mixedWeights(), MinBlocks: 8, MaxBlocks: 40, MaxTxs: 4, MaxOps: 4, PUpper: 6, PActor: 8, PNamed: 2, PFault: 4, PExec: 8,
-		PGovParams: 12, PBadRef: 5, Vesting: true, TinyLimits: true, BigAmounts: true, EntDenomChange: true, LongTime: true, GasSweep: true, MultiPct: 35, PGranter: 10, PFeePayer: 6},
+		PGovParams: 14, GovKinds: []string{ParamsEnt, ParamsEnt, ParamsWrk, ParamsBcn, ParamsStr}, PBadRef: 5, Vesting: true, TinyLimits: true, BigAmounts: true, EntDenomChange: true, LongTime: true, GasSweep: true, MultiPct: 35, PGranter: 10, PFeePayer: 6},
 	Rule: "history with a failed multi-message tx whose first message was viable alone, or enterprise parameters changed while an order was queued",
 	NonTrivial: func(w *World) bool {
 		return w.Classes["c14.failed-multi-message-tx-first-op-viable"] > 0 || w.Classes["c14.ent-params-changed-with-order-queued"] > 0
